@@ -144,7 +144,7 @@ def run(tier):
         "known_finding_scenarios": dict(v.known),
         "replay": p.stats, "exhaustive": False,
     }
-    vlib.write_evidence(PROP, tier, "exploration", cov, time.time() - t0, len(v.violations), [
+    vlib.write_evidence(PROP, tier, "model_checking", cov, time.time() - t0, len(v.violations), [
         "the case STRUCTURE (stack x matched field x perturbation value) is enumerated completely by TLC; field VALUES are sampled",
         "replies have the header structure of the request (one concretisation in four with an IPv4 record-route option / IPv6 hop-by-hop + destination-options headers on both sides)",
         "documented wildcards excluded from generation: broadcast / multicast Ethernet destination, IPv4 255.255.255.255 "
